@@ -273,6 +273,8 @@ private:
             // just swap the indexes in the open list to the partition point 'end'
             // and then delete that item.
             std::swap(m_open_list[e.m_open_list_position], m_open_list[m_open_list_end - 1]);
+            // The element swapped out of the last in-use position now lives at this element's old position.
+            m_elements[m_open_list[e.m_open_list_position]].m_open_list_position = e.m_open_list_position;
         }
         --m_open_list_end; // delete the last item
 
@@ -298,7 +300,7 @@ private:
         {
             std::uniform_int_distribution<size_t> dist{0, m_open_list_end - 1};
             size_t                                delete_idx = dist(m_mt);
-            do_erase(delete_idx);
+            do_erase(m_open_list[delete_idx]);
         }
     }
 
